@@ -1,19 +1,108 @@
-"""Per-property texts for MANIFEST.json and evidence files."""
+"""Per-property texts for MANIFEST.json and evidence files (what is decided, what is declined, what is trusted)."""
 
-_T = "static analysis over type-checked MIR (rustc_private fact extractor + repository-specific CFG/dataflow rules)"
+_T = "static analysis of type-checked MIR"
+
+_N = ("Trusted: rustc type checking / MIR construction / const-eval (nightly, mir-opt-level=0, overflow checks on); faithful serialisation by the "
+      "mirfacts driver; the Python rule engines; hand-transcribed spec tables under /verif/spec. MIR is analysed generically (D, T, SPI opaque): calls into the user's "
+      "BlockDevice / TimeSource / SpiDevice / DelayNs and callbacks are assumed to return and not to reach library state. Paths are over-approximated "
+      "(no infeasible-path pruning beyond constants and the documented correlations). Fail closed: a missing anchor or an instance count below its floor is reported as a violation.")
 
 INFO = {}
 NOT_APPLICABLE = {}
 
 
-def _p(pid, claim, note, technique, explanation=None, level="other"):
-    INFO[pid] = {"claim": claim, "note": note, "technique": technique, "explanation": explanation or claim, "level": level}
+def _p(pid, claim, technique, note=_N, level="other"):
+    INFO[pid] = {"claim": claim, "note": note, "technique": technique, "explanation": claim, "level": level}
 
 
-_N = ("Trusted base: rustc type checker/MIR construction/const-eval, faithful serialisation by mirfacts, hand-transcribed spec tables. "
-      "Generic MIR (D, T, SPI opaque): user callbacks/devices are assumed to return and not to touch library state. Paths are over-approximated. ")
-
-for _pid in ["C%02d" % i for i in range(1, 20)]:
-    _p(_pid, "structural necessary conditions decided on every path of the anchored functions; the end-to-end behaviour is not claimed (see DESIGN.md)", _N, _T)
-
-INFO["C19"]["level"] = "proof"
+_p("C01",
+   "Decides necessary structural conditions on every path, not the byte-exact behaviour: the single-block cache protocol (hit iff tag == Some(arg), tag invalidated before a "
+   "device read, tagged only after its Ok, blank_mut tags+zeroes, block_device() invalidates: BC1-3,5); whole-block blanking in write only under block_offset == 0 && "
+   "to_copy == block_avail with avail = 512 - offset (BM1); every modification of the cached block is written back before the next load or Ok return (WT1); seeks store the "
+   "offset only in range (SK1); the cluster cursor restarts on backward seeks and is advanced in place (SK2). Equality of read data with an in-memory model over all "
+   "histories/geometries is declined (numerical results of unbounded histories).",
+   "event-language inclusion on MIR paths (CFG x DFA), edge-dominance guard rules, value-origin chasing")
+_p("C02",
+   "Decides: flush writes the open file's own in-memory entry at entry_block/entry_offset, info sector first, entry last, whenever dirty (FL1, OR4); close removes the handle "
+   "regardless of the flush result and returns it; Drop closes (FL2); the 32-byte entry layout equals the FAT specification for FAT16 and FAT32 bit-exactly (CD1); the free-space "
+   "record is written at the spec offsets (IS2); creation time is written only at creation, mtime only from the clock in write/truncate (TS1, TS2); new directory clusters are "
+   "fully initialised (OR5); write-through (WT1). Declined: readability by an independent FAT reader and byte-for-byte preservation of untouched files as an image property.",
+   "event-language inclusion, bit-vector abstract interpretation of DirEntry::serialize against the FAT layout table, who-writes-field scans")
+_p("C03",
+   "Decides the local steps an inductive well-formedness proof needs: only update_fat mutates FAT blocks, with the entry width / special values / FAT32 nibble of the volume's FAT type "
+   "(FT1-4); the free search never returns a cluster it has not compared with the end (FT5); a new cluster is an entry verified free, end-marked before linked (OR1); truncation "
+   "terminates the head before freeing the tail and frees the visited cluster (OR2, FT9); create only when the lookup says NotFound (MD3, EF1); all directory walkers agree on start, "
+   "extent and continuation (LS4); new directory clusters are zeroed completely (OR5). Declined: acyclicity / no cross-links / unique names as global invariants over histories.",
+   "who-may-call + term matching per FAT-type arm, must-fact dataflow via CFG x DFA product, edge-dominance guards")
+_p("C04",
+   "Decides: the only mutable cache accesses whose index lies in the FAT region are in update_fat, none indexes a constant or the bare partition start (MBR / boot sector are only read) (FT1); "
+   "primary and duplicate FAT block indices are lba_start + {fat_start, second_fat_start}.offset_bytes(cluster*k) with the same offset (FT2, FT3); the FAT32 high nibble is preserved (FT4); the free search is "
+   "bounded by cluster_count + 2 (FT5, IS3); partial blocks are read-modify-write, whole-block blanking only under the whole-block guard (BM1, WT1); blank_mut tags before the write (BC2, BC4). "
+   "Declined: 'only bytes of the requested range change' as a before/after image property; cluster_to_block arithmetic for arbitrary geometries.",
+   "value-origin (provenance) analysis of every cache index, term matching, edge-dominance guards")
+_p("C05",
+   "Decides: every Ok path of delete passes through the release of the chain, slot first (FT8, OR6); truncation frees every visited cluster (FT9, OR2); the whole FAT is searched (wrap-around on NotEnoughSpace) and taking the "
+   "last free cluster does not fail (FT10, EF1/FT6 via the fixed hint recomputation); a failed extension yields DiskFull, never Ok (DK1); the free count is paired with every freed/allocated cluster and cannot overflow (FT7). "
+   "Declined: 'in-use set == union of live chains' and indefinite fill/delete/refill as global counting over histories.",
+   "must-pass-through on the call graph, CFG x DFA pairing automata, guard rules")
+_p("C06",
+   "Decides: the callback sees a slot only under !is_end() && is_valid() of that same slot with get_entry of that slot, nothing after the end marker (LS1); no LFN fragment from iterate_dir (LS2); lookup/delete act only on "
+   "matches() of bytes 0..11 (LS3); all 8 walker arms start at the directory's cluster (FAT32 root: first_root_dir_cluster; FAT16 root region), visit range(cluster_to_block(cur), blocks_per_cluster) and continue at the "
+   "cluster read from the FAT (LS4); cluster 0 + directory means root on both FAT types, hi<<16|lo (LS5, CD4); open_dir pushes the looked-up entry's cluster, '.' re-uses the parent's (MD5); FAT errors are never read as "
+   "end-of-directory (EF1). Declined: 'every live entry exactly once' for arbitrary fragmented multi-cluster directories.",
+   "edge-dominance guard rules keyed on the same slot value, sibling cross-check of walker skeletons, error-fate analysis")
+_p("C07",
+   "Decided close to fully: mode resolution table 6x2 equals the documentation (MD1, by abstract execution on all inputs); every effect of write() is under mode != ReadOnly (MD2); open/truncate/create effects are under the "
+   "documented checks on the entry just looked up (MD3), delete under !is_directory && !file_is_open (MD4), open_dir under is_directory (MD5); file identity is exactly (volume, entry block, entry offset) (MD9, MD9x); no path from entry to "
+   "any refusal return passes a medium mutation, table change or open-file store (MD7, 80+ return sites). Declined: the matrix 'at any point of any history' where on-disk state matters.",
+   "edge-dominance guard rules, reachability (effect-before-refusal), abstract interpretation for the decision table")
+_p("C08",
+   "Decides: every Result-returning VolumeManager method takes the RefCell with try_borrow[_mut] mapped to LockError before any non-delegating call (LK1, LK2); every raw-handle parameter is validated before any effect / Ok (HV1); handles "
+   "come only from generate() which advances the counter by one (HV2); pushes are bounded by !is_full / mapped to the table's own TooMany* error, closes remove from the matching table (CP1); close_volume / open_raw_volume scan first (CP2); "
+   "has_open_handles truth table (HQ1); internal root handle of get_root_volume_label closed on all exits (RL1); refusals have no effect (MD7). KNOWN FINDING F11: open_root_dir does not validate its RawVolume (see known_findings.json).",
+   "dominance / guard rules over all 23 public methods, who-constructs scan, truth-table by abstract execution")
+_p("C09",
+   "Decides the three structural facts the guarantee reduces to under atomic ordered block writes: (1) at Ok of flush/close everything the entry refers to was already written through (WT1, OR4, FL1); (2) later operations rewrite a block only from its current "
+   "device contents plus their own slot/entry (BM1, WT1, BC1-3,5); (3) they touch only their own FAT entry / 32-byte slot, and an open file is identified by its slot (FT1, FT2, MD9/MD9x). Declined: the end-to-end statement over all histories (needs the global no-cross-link invariant of C03).",
+   "event-language inclusion (CFG x DFA) and guard rules")
+_p("C10",
+   "Decides the write order of every mutating operation for all crash points at once (a crash point is a prefix of a path's write events): end-mark < zero < link in allocation (OR1), terminate < free < entry in truncate-open (OR2), slot < chain release in delete (OR6), "
+   "info sector < entry in flush (OR4), primary < duplicate FAT (BC4), complete initialisation of new directory clusters (OR5). KNOWN FINDING F10: make_dir writes the parent entry before allocating and before initialising the new cluster (two crash windows). Declined: 'the medium mounts' and global no-cross-link conclusions.",
+   "safety automata over MIR paths (CFG x DFA product)")
+_p("C11",
+   "Decides the fate of every device failure at every call where it can surface (170+ sites incl. failures surfacing as another variant through callee summaries): propagated or converted to a returned Err, never absorbed into success, continued I/O or a panic (EF1); close removes the handle even if the flush failed (FL2); "
+   "no write_back after a failed load (EF3); the cache tag is invalidated before a read that may fail (BC1); walkers stop only on EndOfFile (LS4). Exempt: Drop impls. Declined: 'files not involved are intact on the medium' (image property) and 'never hangs' on corrupted chains.",
+   "error-fate dataflow with bottom-up function summaries over the call graph")
+_p("C12",
+   "Decides what the driver emits, not what the card does: byte vs block addressing table identical in read and write (SD7); CSD layout per card kind per spec table (SD8) and every CSD field accessor bit-exact (SD8b), capacity formulas as expression structure (SD8c); single/multi block framing language with the caller's buffers in order (SD6); "
+   "card identification decisions (SD14); init before use (SD5). Declined: equality of data with the card's contents, multi == sequence of single, card timings.",
+   "decision-table extraction, bit-vector abstract interpretation against the CSD bit table, event-language inclusion")
+_p("C13",
+   "Decides: read_data returns Ok only under token == 0xFE and (CRC off or received BE CRC == crc16(buffer)), always transferring payload then 2 CRC bytes (SD9); write_data Ok only under accepted response, single write Ok only under CMD13 == 0 and status byte 0 (SD10); SPI calls only in three wrappers mapping to Transport, no driver error absorbed (SD11); "
+   "every loop is a bounded for or passes Delay::delay(..)? on every cycle with a finite budget created outside the loop (SD12); card_type stored once, no Err after it (SD13). With CR2 (C19) this gives 'any CRC-16-detectable corruption is an error'. Declined: behaviour of an adversarial card beyond 'bounded and reported'.",
+   "guard rules, error-fate analysis over the driver, loop/ranking-function rule")
+_p("C14",
+   "Decides: constants equal the SD spec table (SD1); frame = 0x40|cmd, big-endian arg, crc7(frame[0..5]) stored before the write (SD2) with the end bit by CR1; no frame before wait_not_busy except CMD0/CMD12 (SD3); ACMDs only via card_acmd = CMD55 immediately followed by the command (SD4); data commands only after check_init Ok (SD5); "
+   "read/write framing incl. stop-transmission / stop token (SD6, SD9, SD10); identification order and arguments (SD14, SD13). Declined: legality under all card timings; resynchronisation after mid-transfer errors.",
+   "term matching of the frame array, guard rules, event-language inclusion")
+_p("C15",
+   "Decides: panic-freedom of open_raw_volume -> parse_volume -> BPB / FSInfo parsing for arbitrary bytes and arbitrary partition start/size - every overflow, underflow, division and bounds assertion and every unwrap/slice obligation is discharged (MT1, ~85 obligations) with the helper summary checked (MT0); every BPB/FSInfo accessor reads the spec offset bit-exactly, labels and signatures (MT3); "
+   "layout terms of both FAT types incl. sibling agreement on the root-directory size (MT2); acceptance decisions and MBR constants (MT4). Declined: 'files placed by an independent formatter are read correctly' (needs execution; MT2/MT3 are its structural part); later arithmetic on geometry (cluster_to_block) for corrupted FAT contents.",
+   "interval + symbolic-term abstract interpretation with path partitioning and bounded inlining; bit-vector interpretation for field offsets")
+_p("C16",
+   "Decides: every FAT update hits both copies, primary first, duplicate index with the same offset (FT1, FT2, BC4); the stored free count is paired with every free/alloc, saturating (FT7), delete pairs its frees (FT8); unknown stays unknown and each field is written when known independently of the other (IS1, IS4); record offsets 488/492 at info_location, written by flush and volume close (IS2); "
+   "the hint is used only inside the volume (IS3, FT5); the count never influences control flow (IS4). Declined: the numeric value of the hint written back when a stale hint is mounted and nothing is allocated.",
+   "CFG x DFA pairing automata, guard rules, term matching")
+_p("C17",
+   "Decides: panic-freedom of the whole decode path on arbitrary bytes (LF1, 130+ obligations; staging vector by LF2 iterator-length bound, byte-store loop by the LF3 idiom); the unchecked UTF-8 view is reachable only with overflow == false and bytes are stored only as whole encode_utf8 results back to front (LF3); a long name is reported only under Complete && checksum match and the state is reset after every short entry in both FAT arms (LF4); "
+   "the sequence state machine equals the spec table on all 256 rows (LF5); fragment extraction bit-exact (LF7); checksum fold (LF6). Declined: equality of the decoded string with lossy UTF-16 decoding of the joined fragments (depends on core::char::decode_utf16 over all inputs).",
+   "interval abstract interpretation, iterator-length bound analysis, guard rules, abstract execution of the state machine on all rows")
+_p("C18",
+   "Decides: entry layout on both directions equals the FAT table bit-exactly (CD1, CD4, LS5); the date/time codec field by field for all values with all other bits symbolic (independence), and both round trips on the valid domains by composing the verified field tables (CD2); the 8.3 parser's per-character step for every Latin-1 code point + representatives above, every position and dot state, initial fill and special names (CD3, ~3600 rows quick / 6300 thorough). "
+   "Declined: parse(display(n)) == n as a string-level equality (Display goes through core::fmt); the optional hook H1 is not needed.",
+   "bit-vector abstract interpretation, field-wise exhaustive abstract execution with symbolic complement, loop-step decision tables")
+_p("C19",
+   "Proof: for both CRCs, init = 0, the loop body's transfer function equals the reference division step by the SD polynomial for every (remainder, byte) - 256 paths x 7 bits (crc7) and 1 path x 16 bits (crc16) as GF(2)-affine form equalities under the path constraints - and the exit function is (r<<1)|1 resp. identity; by induction on the message length the functions equal the specified remainders for every byte string. "
+   "Consequences (burst <= 16, odd weight, double-bit within 514 bytes, self-check = 0) by polynomial algebra (CR3). Use sites (CR4).",
+   "bit-vector affine abstract interpretation of the loop body (exact), reference matrix computed from the polynomial, induction over message length",
+   level="proof")
